@@ -554,6 +554,12 @@ func (r *run) afterCommand(i int, kind string, res imapc.Result, ev *explore.Eve
 				}
 			}
 			s.mir.Reset(n)
+			if n > 0 {
+				// like a real client, the mirror learns UIDs and flags of what is there right after selecting: flag
+				// changes that are later applied to the view without being announced become visible to the probe
+				res2 := s.s.C.Cmd("UID FETCH 1:* (FLAGS)")
+				out = append(out, r.afterCommand(i, "UID FETCH", res2, nil)...)
+			}
 		} else if !r.selected(i) {
 			s.mir.Invalidate()
 		}
@@ -567,6 +573,7 @@ func (r *run) afterCommand(i int, kind string, res imapc.Result, ev *explore.Eve
 	if !s.mir.Valid {
 		return out
 	}
+	countBefore := len(s.mir.Cells)
 	for _, u := range res.Untagged {
 		p := imapc.ParseUntagged(u)
 		if p.Kind == "EXPUNGE" && mutatingNoExpunge[kind] {
@@ -577,7 +584,14 @@ func (r *run) afterCommand(i int, kind string, res imapc.Result, ev *explore.Eve
 		}
 	}
 	if (kind == "STORE" || kind == "UID STORE") && ev != nil && strings.Contains(strings.ToUpper(ev.A), ".SILENT") {
-		s.mir.ForgetFlags()
+		f := strings.Fields(ev.A)
+		if kind == "UID STORE" && len(f) > 2 {
+			s.mir.ForgetFlagsOf(f[2], true, countBefore)
+		} else if kind == "STORE" && len(f) > 1 {
+			s.mir.ForgetFlagsOf(f[1], false, countBefore)
+		} else {
+			s.mir.ForgetFlags()
+		}
 	}
 	if mutatingNoExpunge[kind] && res.OK() && r.orc["c05"] {
 		if d, ok := r.w.DumpOf(s.s); ok && pendingExpunges(d) > 0 {
